@@ -38,7 +38,7 @@ var (
 var groups = map[string][]seam{
 	"codec":   {csprng("csr/transid")},
 	"attest":  {},
-	"gensign": {csprng("gensign/regular"), csprng("csr/transid"), dial("agent/ssh/connection"), clock("agent/shimagent"), clock("sshutils/cert")},
+	"gensign": {csprng("gensign/regular"), csprng("csr/transid"), csprng("agent/ssh"), dial("agent/ssh/connection"), clock("agent/shimagent"), clock("sshutils/cert")},
 	"shim":    {clock("agent/shimagent"), clock("sshutils/cert"), dial("agent/ssh/connection"), dial("agent/utils")},
 	"conc": {clock("agent/shimagent"), clock("sshutils/cert"), dial("agent/ssh/connection"), dial("agent/utils"),
 		sched("agent/shimagent"), sched("agent/yubiagent"), sched("mod:golang.org/x/crypto:ssh/agent/client.go")},
